@@ -11,6 +11,7 @@ ops (one per line; strings = code points joined by `,`, the empty string is `e`)
                                                                               -> `remaining <r>` | `unsubscribed` | `fault`
   `notify <action>` | `stop <0|1>`                                            -> `sent <n|e>:<sub>:<addr>:<outcome> …`
   `tick <dt>` | `mode <addr> <outcome>` | `hk`                                -> `ok`
+every answer is followed by ` | alive=<ids> known=<ids>`: the reference monitor's view after the op (fed with the model's answers)
 -/
 
 namespace Sdc.Eventing
@@ -72,17 +73,30 @@ def parseCfg (ws : List String) : Option Cfg :=
 
 end Sdc.Eventing
 
-def stepLine (cs : Cfg × State) (line : String) : (Cfg × State) × String :=
+/-- what the reference monitor says after the op: ids it considers alive / known (must equal the Python oracle's view) -/
+def monView (cfg : Cfg) (m : Mon) (n : Nat) : String :=
+  let ids := List.range n
+  let alive := ids.filter (fun i => match m.recs i with | some r => decide (r.alive cfg m.now) | none => false)
+  let known := ids.filter (fun i => match m.recs i with | some r => !r.unsub && !r.ended | none => false)
+  " | alive=" ++ ",".intercalate (alive.map toString) ++ " known=" ++ ",".intercalate (known.map toString)
+
+structure Drv where
+  cfg : Cfg
+  st : State
+  mon : Mon
+
+def stepLine (d : Drv) (line : String) : Drv × String :=
   match Io.words line with
   | "cfg" :: rest =>
     match parseCfg rest with
-    | some c => ((c, init), "ok")
-    | none => (cs, "bad-op")
+    | some c => (⟨c, init, Mon.init⟩, "ok")
+    | none => (d, "bad-op")
   | ws =>
     match parseOp ws with
     | some op =>
-      let r := step cs.1 cs.2 op
-      ((cs.1, r.1), r.2.str)
-    | none => (cs, "bad-op")
+      let r := step d.cfg d.st op
+      let m := d.mon.step d.cfg op r.2
+      (⟨d.cfg, r.1, m⟩, r.2.str ++ monView d.cfg m r.1.nextId)
+    | none => (d, "bad-op")
 
-def main : IO Unit := Io.lineLoop stepLine (⟨Dispatch.path.mkKey, 720000, 1, true⟩, init)
+def main : IO Unit := Io.lineLoop stepLine ⟨⟨Dispatch.path.mkKey, 720000, 1, true⟩, init, Mon.init⟩
